@@ -5,6 +5,8 @@ package main
 
 import (
 	"fmt"
+	"os"
+	"runtime"
 	"go/types"
 	"sort"
 	"strings"
@@ -63,6 +65,10 @@ type PathResult struct {
 type Prefix struct {
 	Trace []int32
 	Model Model
+	Sites []uint32 // per trace entry: fingerprint of the deciding site (replay divergence check)
+	By    string
+	PCH   []uint64
+	Vals  string
 }
 
 type Engine struct {
@@ -112,6 +118,13 @@ type Engine struct {
 	fnsSeen      map[string]bool
 	debug        bool
 	inInit       bool
+	prefixModelOK bool
+	prefixPCH    []uint64
+	prefixVals   string
+	curCond      *Term
+	prefixBy     string
+	sites        []uint32
+	prefixSites  []uint32
 	ufParent     map[int32]int32
 	multiConj    map[int32][]*Term
 	localHits    int
@@ -149,13 +162,21 @@ func (e *Engine) unsupported(format string, args ...interface{}) {
 
 func (e *Engine) resetPath(p Prefix) {
 	e.prefix = p.Trace
+	e.prefixBy = p.By
+	e.prefixPCH = p.PCH
+	e.prefixVals = p.Vals
+	e.prefixSites = p.Sites
+	e.sites = e.sites[:0]
 	e.pos = 0
 	e.trace = e.trace[:0]
 	e.model = p.Model
+	e.modelOK = true
+	e.prefixModelOK = true
 	if e.model == nil {
 		e.model = Model{}
+		e.modelOK = len(p.Trace) == 0
+		e.prefixModelOK = false
 	}
-	e.modelOK = true
 	e.ev = &evaluator{m: e.model, cache: map[int32]uint64{}}
 	e.pc = e.pc[:0]
 	e.steps = 0
@@ -174,6 +195,9 @@ func (e *Engine) resetPath(p Prefix) {
 }
 
 func (e *Engine) setModel(m Model) {
+	if e.debug {
+		e.debugCheckModel("setModel:"+callerName(), m, nil)
+	}
 	e.model = m
 	e.modelOK = true
 	e.ev = &evaluator{m: m, cache: map[int32]uint64{}}
@@ -215,6 +239,17 @@ func (e *Engine) assume(t *Term) {
 	e.link(t)
 }
 
+// invalidateModel marks the model as possibly violating newly assumed
+// constraints.  While a prefix is being replayed the model delivered with the
+// prefix is kept: it satisfies the whole prefix, including the constraints
+// (witness digits, hash axioms) that are re-assumed along the way.
+func (e *Engine) invalidateModel() {
+	if e.pos < len(e.prefix) && e.prefixModelOK {
+		return
+	}
+	e.modelOK = false
+}
+
 // ensureModel makes sure e.model satisfies the path condition.
 func (e *Engine) ensureModel() {
 	if e.modelOK {
@@ -225,6 +260,21 @@ func (e *Engine) ensureModel() {
 	case Sat:
 		e.setModel(m)
 	case Unsat:
+		if e.debug {
+			fmt.Fprintf(os.Stderr, "INFEASIBLE at pos=%d/%d pc=%d\n%s\n", e.pos, len(e.prefix), len(e.pc), e.stackString())
+			full := e.pc
+			for k := 1; k <= len(full); k++ {
+				need := map[int32]bool{}
+				vd, _ := e.solver.CheckSet(full[:k], need)
+				if vd != Sat {
+					fmt.Fprintf(os.Stderr, "  first unsat prefix: %d conjuncts; last = %s\n", k, termString(full[k-1], 6))
+					for j := k - 2; j >= 0 && j >= k-8; j-- {
+						fmt.Fprintf(os.Stderr, "    before: %s\n", termString(full[j], 6))
+					}
+					break
+				}
+			}
+		}
 		panic(pathEnd{"infeasible"})
 	default:
 		e.res.Unknowns++
@@ -234,6 +284,14 @@ func (e *Engine) ensureModel() {
 
 // decide forks on a Bool term; returns the side taken on this path.
 func (e *Engine) decide(c *Term) bool {
+	e.curCond = c
+	r := e.decide0(c)
+	e.syncSites()
+	e.curCond = nil
+	return r
+}
+
+func (e *Engine) decide0(c *Term) bool {
 	if c.IsConst() {
 		return c.c != 0
 	}
@@ -247,8 +305,19 @@ func (e *Engine) decide(c *Term) bool {
 		} else {
 			e.assume(e.ts.BNot(c))
 		}
-		if e.pos == len(e.prefix) {
-			// the model stored with the prefix satisfies the whole prefix
+		if e.pos == len(e.prefix) && e.debug && e.modelOK {
+			e.debugCheckModel("prefix-model by "+e.prefixBy, e.model, nil)
+			same := len(e.pc) == len(e.prefixPCH)+1
+			for i := range e.prefixPCH {
+				if i < len(e.pc) && e.pc[i].sh != e.prefixPCH[i] {
+					same = false
+					fmt.Fprintf(os.Stderr, "PCDIFF at %d: %s\n", i, termString(e.pc[i], 6))
+					break
+				}
+			}
+			if fmt.Sprint(filterModel(e.model, nil)) != e.prefixVals {
+				fmt.Fprintf(os.Stderr, "MODELDIFF pushed=%s now=%v samePC=%v lens %d %d\n", e.prefixVals, filterModel(e.model, nil), same, len(e.pc), len(e.prefixPCH))
+			}
 		}
 		return v == 1
 	}
@@ -276,7 +345,7 @@ func (e *Engine) decide(c *Term) bool {
 			// only the false side is feasible
 			e.trace = append(e.trace, 0)
 			e.assume(e.ts.BNot(c))
-			e.modelOK = false
+			e.invalidateModel()
 			return false
 		default:
 			e.res.Unknowns++
@@ -294,7 +363,8 @@ func (e *Engine) decide(c *Term) bool {
 		nt := make([]int32, len(e.trace)+1)
 		copy(nt, e.trace)
 		nt[len(e.trace)] = int32(b2u(!side))
-		e.res.NewPrefixes = append(e.res.NewPrefixes, Prefix{Trace: nt, Model: m})
+		e.debugCheckModel("decide/solver", m, other)
+		e.res.NewPrefixes = append(e.res.NewPrefixes, e.mkPrefix(nt, m))
 	case Unknown:
 		e.res.Unknowns++
 	}
@@ -341,7 +411,13 @@ func (e *Engine) decideUnary(c *Term) bool {
 		nt := make([]int32, len(e.trace)+1)
 		copy(nt, e.trace)
 		nt[len(e.trace)] = int32(b2u(!side))
-		e.res.NewPrefixes = append(e.res.NewPrefixes, Prefix{Trace: nt, Model: e.modelWith(v, other.first())})
+		om := e.modelWith(v, other.first())
+		if side {
+			e.debugCheckModel("decideUnary", om, e.ts.BNot(c))
+		} else {
+			e.debugCheckModel("decideUnary", om, c)
+		}
+		e.res.NewPrefixes = append(e.res.NewPrefixes, e.mkPrefix(nt, om))
 	}
 	e.trace = append(e.trace, int32(b2u(side)))
 	if side {
@@ -377,6 +453,11 @@ func (e *Engine) decideEntangled(c *Term) (side bool, done bool) {
 			return false, false
 		}
 		om, feasible = m, true
+		if side {
+			e.debugCheckModel("decideEntangled", om, e.ts.BNot(c))
+		} else {
+			e.debugCheckModel("decideEntangled", om, c)
+		}
 		e.localHits++
 	}
 	e.fastDecisions++
@@ -384,7 +465,7 @@ func (e *Engine) decideEntangled(c *Term) (side bool, done bool) {
 		nt := make([]int32, len(e.trace)+1)
 		copy(nt, e.trace)
 		nt[len(e.trace)] = int32(b2u(!side))
-		e.res.NewPrefixes = append(e.res.NewPrefixes, Prefix{Trace: nt, Model: om})
+		e.res.NewPrefixes = append(e.res.NewPrefixes, e.mkPrefix(nt, om))
 	}
 	e.trace = append(e.trace, int32(b2u(side)))
 	if side {
@@ -395,8 +476,96 @@ func (e *Engine) decideEntangled(c *Term) (side bool, done bool) {
 	return side, true
 }
 
+// site returns a fingerprint of the current interpretation point.
+func (e *Engine) site() uint32 {
+	fr := e.top
+	if fr == nil {
+		return 0
+	}
+	h := uint32(2166136261)
+	name := fr.fn.String()
+	for i := 0; i < len(name); i++ {
+		h = (h ^ uint32(name[i])) * 16777619
+	}
+	if fr.block != nil {
+		h = (h ^ uint32(fr.block.Index)) * 16777619
+	}
+	if e.curCond != nil {
+		h = (h ^ uint32(e.curCond.sh) ^ uint32(e.curCond.sh>>32)) * 16777619
+	}
+	return h
+}
+
+// syncSites keeps e.sites aligned with e.trace and checks replay divergence.
+func (e *Engine) syncSites() {
+	s := e.site()
+	for len(e.sites) < len(e.trace) {
+		i := len(e.sites)
+		if i < len(e.prefixSites) && i < len(e.prefix) && e.prefixSites[i] != s && e.prefixSites[i] != 0 {
+			panic(fmt.Sprintf("replay divergence at decision %d: site %08x, recorded %08x\n%s", i, s, e.prefixSites[i], e.stackString()))
+		}
+		e.sites = append(e.sites, s)
+	}
+}
+
+func (e *Engine) mkPrefix(nt []int32, m Model) Prefix {
+	st := make([]uint32, len(nt))
+	copy(st, e.sites)
+	s := e.site()
+	for i := len(e.sites); i < len(nt); i++ {
+		st[i] = s
+	}
+	by := ""
+	if e.debug {
+		by = callerName()
+		e.debugCheckModel("mkPrefix<-"+by, m, nil)
+	}
+	var pch []uint64
+	vals := ""
+	if e.debug {
+		for _, c := range e.pc {
+			pch = append(pch, c.sh)
+		}
+		vals = fmt.Sprint(filterModel(m, nil))
+	}
+	return Prefix{Trace: nt, Model: m, Sites: st, By: by, PCH: pch, Vals: vals}
+}
+
+// debugCheckModel verifies (debug mode) that m satisfies the path condition plus cond.
+func (e *Engine) debugCheckModel(who string, m Model, cond *Term) {
+	if !e.debug || m == nil {
+		return
+	}
+	ev := &evaluator{m: m, cache: map[int32]uint64{}}
+	bad := false
+	ev.ufval = func(app *Term, args []uint64) uint64 { bad = true; return 0 }
+	check := func(c *Term, what string) {
+		if ev.eval(c) == 0 && !bad {
+			fmt.Fprintf(os.Stderr, "BADMODEL from %s: violates %s %s\n  vars=%v\n", who, what, termString(c, 8), filterModel(m, nil))
+			if c.sv != nil {
+				tt := e.truthTable(c)
+				fmt.Fprintf(os.Stderr, "  conj: multi=%v sv=%s entangled=%v tt=%x dom=%x\n", c.multi, c.sv.name, e.entangled[c.sv.id], tt, e.domOf(c.sv))
+			} else {
+				fmt.Fprintf(os.Stderr, "  conj: multi=%v sv=nil vars=%v\n", c.multi, e.varsOf(c))
+			}
+		}
+	}
+	for i, c := range e.pc {
+		check(c, fmt.Sprintf("pc[%d]", i))
+	}
+	if cond != nil {
+		check(cond, "cond")
+	}
+}
+
 // choose makes an n-way concrete (skeleton / scheduler) decision.
 func (e *Engine) choose(n int) int {
+	r := e.choose0(n)
+	e.syncSites()
+	return r
+}
+
+func (e *Engine) choose0(n int) int {
 	if n <= 1 {
 		return 0
 	}
@@ -414,7 +583,7 @@ func (e *Engine) choose(n int) int {
 		if e.modelOK {
 			m = e.model
 		}
-		e.res.NewPrefixes = append(e.res.NewPrefixes, Prefix{Trace: nt, Model: m, })
+		e.res.NewPrefixes = append(e.res.NewPrefixes, e.mkPrefix(nt, m))
 	}
 	e.trace = append(e.trace, 0)
 	return 0
@@ -422,6 +591,12 @@ func (e *Engine) choose(n int) int {
 
 // concretize picks a feasible concrete value for t (forking over the others).
 func (e *Engine) concretize(t *Term) uint64 {
+	r := e.concretize0(t)
+	e.syncSites()
+	return r
+}
+
+func (e *Engine) concretize0(t *Term) uint64 {
 	for {
 		if t.IsConst() {
 			return t.c
@@ -484,7 +659,7 @@ func (e *Engine) concretize(t *Term) uint64 {
 			nt[len(e.trace)+1] = int32(uint32(v))
 			nt[len(e.trace)+2] = int32(uint32(v >> 32))
 			nt[len(e.trace)+3] = 0
-			e.res.NewPrefixes = append(e.res.NewPrefixes, Prefix{Trace: nt, Model: m})
+			e.res.NewPrefixes = append(e.res.NewPrefixes, e.mkPrefix(nt, m))
 		} else if vd == Unknown {
 			e.res.Unknowns++
 		}
@@ -661,4 +836,12 @@ func sortedKeys(m map[string]bool) []string {
 func fnName(fn *ssa.Function) string {
 	s := fn.String()
 	return strings.TrimSpace(s)
+}
+
+func callerName() string {
+	pc, _, line, ok := runtime.Caller(2)
+	if !ok {
+		return "?"
+	}
+	return fmt.Sprintf("%s:%d", runtime.FuncForPC(pc).Name(), line)
 }
